@@ -17,7 +17,7 @@ LEVEL_TEXT = ('every point of the product is executed on the real script and cla
               'trailing slashes, symlinked parents, mount points, every candidate trash dir failing)')
 LEVEL_NOTE = ('trusted: CPython/shutil, tmpfs, shim mount rules (EXDEV/EBUSY/ismount); names other than the alphabet and '
               'permission failures of non-root users are not covered')
-RULE = ('product of kind (6) x spelling (24; plus 4 unusual entry names for the plain spelling) x option set (15, incl. three combinations and a $HOME full of regex metacharacters) x layout (9: home trash whose info is a regular file / a dangling symlink, first use, existing pair whose payload is a dangling symlink, existing pair with the same name, orphan directory payload + orphan info with the same name, sticky .Trash, plain volume, every candidate blocked) minus duplicates (kind is irrelevant for '
+RULE = ('product of kind (6) x spelling (24; plus 4 unusual entry names for the plain spelling) x option set (15, incl. three combinations and a $HOME full of regex metacharacters) x layout (9: home trash whose info is a regular file / a dangling symlink, first use, existing pair whose payload is a dangling symlink, existing pair with the same name, orphan directory payload + orphan info with the same name, sticky .Trash, plain volume, every candidate blocked) plus one run naming a directory that contains its own --trash-dir next to an ordinary entry (2 orders x 3 kinds x 3 options) and one run with 1100 arguments; minus duplicates (kind is irrelevant for '
         'spellings that do not name x); non-trivial = the run went past argument screening (a trash-dir candidate was '
         'examined or the entry moved), distinct = outcome class x spelling x option x layout')
 
@@ -57,7 +57,56 @@ def cases(tier):
                 for nm in NAMES_X:
                     for k in ('file', 'tree', 'ldang'):
                         out.append({'kind': k, 'sp': './x', 'opt': o, 'lay': lay, 'name': nm})
+    # one run names a directory that CONTAINS the only candidate trash directory (its move fails by itself: rename says EINVAL) next to an ordinary entry
+    for order in ('holder-first', 'holder-last'):
+        for k in ('file', 'tree', 'ldang'):
+            for o in ('-', '-v', '-f'):
+                out.append({'special': 'holder', 'order': order, 'kind': k, 'opt': o, 'sp': 'hold+post', 'lay': 'trash-dir-inside-argument'})
+    # a long argument list
+    out.append({'special': 'many', 'n': 1100, 'kind': 'file', 'opt': '-', 'sp': 'x0000..', 'lay': 'home-cold'})
     return out
+
+
+def run_special(c):
+    B = '/home/u/w'
+    W = scen.base_world(mounts=['/', '/mnt/v1'], cwd=B)
+    W.dir(B)
+    if c['special'] == 'many':
+        names = ['x%04d' % i for i in range(c['n'])]
+        for n in names:
+            W.file(B + '/' + n, n + '\n')
+        with cell.Sandbox(W.spec()) as sb:
+            before = sb.snapshot()
+            r = sb.run(['trash-put'] + names, cwd=B, plan={'budget': 400000})
+            after = sb.snapshot()
+        infos, pays = world.pairs(after, scen.HOME_TRASH)
+        left = [n for n in names if B + '/' + n in after]
+        detail = {'exit': r.exit, 'err': r.err[-300:], 'left_in_place': left[:5], 'infos': len(infos), 'payloads': len(pays)}
+        if r.exit != 0 or left or len(infos) != c['n'] or set(pays) != set(names) or set(infos) != set(n + '.trashinfo' for n in names):
+            return {'verdict': 'viol', 'sig': 'C01|long-argument-list|%s' % ('stray-info' if len(infos) > len(pays) else 'not-all-trashed'), 'klass': 'long-list', 'nontrivial': 'many', 'detail': detail}
+        return {'verdict': 'ok', 'klass': 'TRASHED(exit0) x %d' % c['n'], 'nontrivial': 'many|ok', 'detail': detail}
+    H, T, P = B + '/hold', B + '/hold/T', B + '/post'
+    W.dir(H).file(H + '/keep', 'inside the holder\n')
+    scen.add_trash_dir(W, T)
+    scen.add_entry(W, P, c['kind'])
+    args = ['hold', 'post'] if c['order'] == 'holder-first' else ['post', 'hold']
+    argv = ['trash-put'] + ([c['opt']] if c['opt'] != '-' else []) + ['--trash-dir', 'hold/T'] + args
+    with cell.Sandbox(W.spec()) as sb:
+        before = sb.snapshot()
+        r = sb.run(argv, cwd=B)
+        after = sb.snapshot()
+    cl = scen.classify_put(before, after, P)
+    hold_b = {k: v for k, v in world.under(before, H).items() if not (k == '/T' or k.startswith('/T/'))}
+    hold_a = {k: v for k, v in world.under(after, H).items() if not (k == '/T' or k.startswith('/T/'))}
+    holder_ok = set(hold_b) == set(hold_a) and all(world.norm(hold_b[k], dir_mtime=False) == world.norm(hold_a[k], dir_mtime=False) for k in hold_b)
+    detail = {'argv': argv, 'exit': r.exit, 'err': r.err[-400:], 'post': cl['state'], 'why': cl['why'], 'holder_intact': holder_ok, 'new': [cl['new_infos'], cl['new_payloads']]}
+    nt = 'holder|%s|%s|%s|%s' % (c['order'], c['kind'], c['opt'], cl['state'])
+    if cl['state'] != 'TRASHED' or not holder_ok:
+        what = 'ordinary-argument-not-trashed-cleanly' if cl['state'] != 'TRASHED' else 'holder-changed'
+        return {'verdict': 'viol', 'sig': 'C01|%s|next-to-an-argument-whose-move-fails|%s' % (what, c['order']), 'klass': what, 'nontrivial': nt, 'detail': detail}
+    if r.exit == 0:
+        return {'verdict': 'viol', 'sig': 'C01|exit-0-although-the-holder-was-not-trashed', 'klass': 'exit-status', 'nontrivial': nt, 'detail': detail}
+    return {'verdict': 'ok', 'klass': 'holder-refused+other-trashed', 'nontrivial': nt, 'detail': detail}
 
 
 def make_world(kind, lay, name='x'):
@@ -121,6 +170,8 @@ def make_world(kind, lay, name='x'):
 
 
 def run_case(c):
+    if c.get('special'):
+        return run_special(c)
     W, B, P = make_world(c['kind'], c['lay'], c.get('name', 'x'))
     sp = c['sp']
     arg = sp.replace('/abs/x', B + '/x')
